@@ -405,7 +405,8 @@ def exact_old_pivot_margin(pat, prec, avals, permr_old, permc, u, mg):
         if mx2 == 0: return "ambiguous", k, None
         r2 = p2 / (U * U * mx2) if U != 0 else None
         if r2 is not None and (minr is None or r2 < minr): minr = r2
-        sure_pass = p2 != 0 and ((r2 is not None and r2 >= hi) or (U <= 1 and p2 >= hi * o2))
+        # u = 0: thresh = 0 and the rule is just |old pivot| != 0
+        sure_pass = p2 != 0 and (U == 0 or (r2 is not None and r2 >= hi) or (U <= 1 and p2 >= hi * o2))
         sure_fail = p2 == 0 or (r2 is not None and r2 <= lo and not (U <= 1 and p2 >= lo * o2))
         if sure_fail: return "fail", k, r2
         if not sure_pass: return "ambiguous", k, r2
@@ -688,7 +689,7 @@ def gen_c08_case(rng, length, nmax, precs="sdcz", main_only=False):
     panel, relax = ienv[0], ienv[1]
     user = rng.random() < 0.35
     lw = lwork_enough(n, annz, prec, ienv, 4, panel) if user else 0
-    ulist = [1.0, 1.0, 0.5, 0.1, 0.01]
+    ulist = [1.0, 1.0, 0.5, 0.1, 0.01, 0.0]
     ops = []
     state = {"lu_ok": False, "have_sym": False, "vals": None, "style": None}
 
